@@ -448,6 +448,7 @@ func grpcDesign() {
 		Field(2, "b", Int)
 		Field(3, "c", ArrayOf(String))
 		Field(4, "d", MapOf(String, Int))
+		Field(5, "e", "Msg")
 		Required("a")
 	})
 	var Res = ResultType("application/vnd.xgrpc.res", func() {
